@@ -293,6 +293,65 @@ def history (inp impl : Json) : Except String Resp := do
          spec := some (bad.isEmpty && lenOk),
          why := if lenOk then "; ".intercalate (bad.take 3) else "implementation reported a different number of steps" }
 
+/-! ## c07.commands -/
+
+def natD0 (j : Json) (k : String) : Except String Nat :=
+  match fldOpt j k with
+  | none => pure 0
+  | some v => asNat v
+
+def parseQEv (j : Json) : Except String QEv := do
+  match (← strF j "k") with
+  | "record" =>
+    pure (.record (← natD0 j "real") (← natD0 j "virt") ((← natD0 j "newClaims") * (← natD0 j "newPods")))
+  | "start" =>
+    let name ← strF j "m"
+    match Method.all.find? (fun m => m.name == name) with
+    | some m => pure (.start m)
+    | none => throw s!"unknown method {name}"
+  | "queue" =>
+    match (← strD j "qf") with
+    | "" => pure (.queue .none)
+    | "delete-error" => pure (.queue .deleteError)
+    | "replacement-lost" => pure (.queue .replacementLost)
+    | f => throw s!"bad queue fault {f}"
+  | "sync" => pure .sync
+  | "mark" | "unmark" => throw "raw mark/unmark are not part of c07.commands"
+  | _ => pure (.base (← parseEv j))
+
+open Karp.Spec.ProtectedHistory in
+def commands (inp impl : Json) : Except String Resp := do
+  let start ← intF inp "start"
+  let env : World :=
+    { now := start, batchMax := ← intF inp "batchMax", claim := none, node := none, marked := false,
+      nominatedAt := none, inQueue := false, buffer := 0, pool := ← parsePool (← fld inp "pool"),
+      pods := ← (← arrD inp "pods").mapM parsePod, pdbs := ← (← arrD inp "pdbs").mapM parsePdb }
+  let evs ← (← arrF inp "events").mapM parseQEv
+  let model := qobserve env { h := { now := start, sn := none } } evs
+  let implRows ← match fldOpt impl "sel" with
+    | some v => listOf boolList v
+    | none => throw "implementation produced no selections"
+  let implDid ← match fldOpt impl "did" with
+    | some v => strList v
+    | none => throw "implementation did not report what it did"
+  -- the property on what the implementation selected, step by step, against the LOG of recorded scheduling results
+  -- and commands (what the implementation says it started / carried out is taken from its own report)
+  let rec go (l : QLog) (evs : List QEv) (rows : List (List Bool)) (dids : List String) (i : Nat) (bad : List String) : List String :=
+    match evs, rows, dids with
+    | e :: es, row :: rs, d :: ds =>
+      let l' := qspecStep env.pool l e d
+      let bad' := (Method.all.zip row).foldl (fun acc (m, sel) =>
+        if sel && Karp.Spec.Protected.wellFormed (l'.log.world env) && !allowedAfterQ env l' m then
+          acc ++ [s!"after event {i}: {m.name} selects the node although it is protected (commandInQueue={l'.queued} deletionRequestedByCompletedCommand={l'.deleteRequested} marked={l'.log.marked} recentlyNominated={l'.log.recentlyNominated (Karp.Spec.Protected.window env)} tracked={l'.log.tracked} allowed={Karp.Spec.Protected.allowed (l'.log.world env) m})"]
+        else acc) bad
+      go l' es rs ds (i + 1) bad'
+    | _, _, _ => bad
+  let bad := go { log := { now := start } } evs implRows implDid 0 []
+  let lenOk := implRows.length == evs.length && implDid.length == evs.length
+  pure { model := some (jObj [("sel", jArr (model.map (fun r => jArr (r.2.map jBool)))), ("did", jArr (model.map (fun r => jStr r.1)))]),
+         spec := some (bad.isEmpty && lenOk),
+         why := if lenOk then "; ".intercalate (bad.take 3) else "implementation reported a different number of steps" }
+
 /-! ## leaf ops -/
 
 /-- one-directional check: whenever the specification's predicate `premise` holds, the implementation's answer for
@@ -445,6 +504,7 @@ def handle : Handler := fun op inp impl =>
   match op with
   | "c07.candidate" => candidate inp impl
   | "c07.history" => history inp impl
+  | "c07.commands" => commands inp impl
   | "c07.pod" => podOp inp impl
   | "c07.pdb" => pdbOp inp impl
   | "c07.consolidatable" => consolidatableOp inp impl
